@@ -6,6 +6,7 @@ mod chain;
 mod lattice;
 mod limits;
 mod oracle;
+mod pgram;
 mod robots;
 mod singular;
 mod solver;
@@ -27,6 +28,7 @@ fn main() {
         ("replay", "stack") => stack::replay(&args[3], &args[4]),
         ("replay", "singular") => singular::replay(&args[3], &args[4], &args[5]),
         ("record", "cont") => singular::record_cont(&args[3]),
+        ("replay", "pgram") => pgram::replay(&args[3], &args[4]),
         ("record", "ik") => solver::record(&args[3], &args[4]),
         ("record", "follow") => solver::record_follow(&args[3]),
         _ => {
